@@ -44,3 +44,45 @@ fn witness_c06_clocks_do_not_matter() {
     assert_eq!(a.calculate_zobrist_hash(), b.calculate_zobrist_hash());
     assert_eq!(a.calculate_zobrist_pawn_hash(), b.calculate_zobrist_pawn_hash());
 }
+
+/// changing any single component (side to move, one castling right, the en-passant file, one piece) changes the hash
+#[test]
+fn witness_c06_single_component_changes_the_hash() {
+    let bad = std::cell::Cell::new(0u32);
+    let h = |fen: &str| Bitboard::from_fen_string_unchecked(fen).calculate_zobrist_hash();
+    let ph = |fen: &str| Bitboard::from_fen_string_unchecked(fen).calculate_zobrist_pawn_hash();
+    let differ = |a: &str, b: &str, what: &str| {
+        if h(a) == h(b) {
+            if bad.get() < 8 { println!("FAILING-INPUT: {:?} and {:?} differ in {} but have the same position hash", a, b, what); }
+            bad.set(bad.get() + 1);
+        }
+    };
+    // en-passant file, every file, both colours (the capturing pawn stands next to the pushed one)
+    for (i, f) in "abcdefgh".chars().enumerate() {
+        let nb = if i == 0 { 1 } else { i - 1 };
+        let mut r4: Vec<char> = "........".chars().collect();
+        r4[i] = 'P'; r4[nb] = 'p';
+        let row = |r: &Vec<char>| { let mut s = String::new(); let mut n = 0; for c in r { if *c == '.' { n += 1 } else { if n > 0 { s.push_str(&n.to_string()); n = 0; } s.push(*c); } } if n > 0 { s.push_str(&n.to_string()); } s };
+        let w = format!("4k3/8/8/8/{}/8/8/4K3 b - {}3 0 1", row(&r4), f);
+        let wn = format!("4k3/8/8/8/{}/8/8/4K3 b - - 0 1", row(&r4));
+        differ(&w, &wn, "the en-passant file");
+        let mut r5: Vec<char> = "........".chars().collect();
+        r5[i] = 'p'; r5[nb] = 'P';
+        let b = format!("4k3/8/8/{}/8/8/8/4K3 w - {}6 0 1", row(&r5), f);
+        let bn = format!("4k3/8/8/{}/8/8/8/4K3 w - - 0 1", row(&r5));
+        differ(&b, &bn, "the en-passant file");
+        if ph(&w) == ph(&wn) || ph(&b) == ph(&bn) {
+            // the pawn hash includes the en-passant file on the unchanged tree
+            println!("FAILING-INPUT: en-passant file {} does not change the pawn hash", f);
+            bad.set(bad.get() + 1);
+        }
+    }
+    differ("r3k2r/8/8/8/8/8/8/R3K2R w KQkq - 0 1", "r3k2r/8/8/8/8/8/8/R3K2R b KQkq - 0 1", "the side to move");
+    for rights in ["Qkq", "Kkq", "KQq", "KQk"] {
+        differ("r3k2r/8/8/8/8/8/8/R3K2R w KQkq - 0 1", &format!("r3k2r/8/8/8/8/8/8/R3K2R w {} - 0 1", rights), "one castling right");
+    }
+    differ("4k3/8/8/8/8/8/4P3/4K3 w - - 0 1", "4k3/8/8/8/8/4P3/8/4K3 w - - 0 1", "one pawn's square");
+    differ("4k3/8/8/8/8/8/4N3/4K3 w - - 0 1", "4k3/8/8/8/8/8/4B3/4K3 w - - 0 1", "one piece's kind");
+    differ("4k3/8/8/8/8/8/4N3/4K3 w - - 0 1", "4k3/8/8/8/8/8/4n3/4K3 w - - 0 1", "one piece's colour");
+    assert_eq!(bad.get(), 0);
+}
